@@ -277,9 +277,18 @@ def shape_error(env, clauses):
     return None
 
 
-def atom_valuations(env, rnd, atoms, formulas, max_exhaustive=10, samples=6):
+def _euf_evaluable(atoms):
+    op = _ops()
+    okn = (op.SYMBOL, op.INT_CONSTANT, op.BOOL_CONSTANT, op.AND, op.OR, op.NOT, op.IMPLIES, op.IFF, op.EQUALS, op.ITE, op.FUNCTION,
+           op.PLUS, op.MINUS, op.TIMES, op.LE, op.LT)
+    return all(n.node_type() in okn for n in tocoq.topo(list(atoms)))
+
+
+def atom_valuations(env, rnd, atoms, formulas, max_exhaustive=10, samples=6, exact_small=False):
     """Truth assignments of the given atoms that are realisable: all of them when every atom is
-    a Bool symbol, else the values under random refeval interpretations."""
+    a Bool symbol; the values under every assignment of the symbols over {0,1} and three function
+    tables when the atoms are equality/UF/linear terms over at most 8 symbols (exact for the
+    deep-difference family); else the values under random refeval interpretations."""
     if all(a.is_symbol() for a in atoms):
         if len(atoms) <= max_exhaustive:
             for bits in itertools.product([False, True], repeat=len(atoms)):
@@ -288,6 +297,23 @@ def atom_valuations(env, rnd, atoms, formulas, max_exhaustive=10, samples=6):
         for _ in range(64):
             yield dict((a, rnd.random() < 0.5) for a in atoms), None
         return
+    if exact_small and _euf_evaluable(atoms):
+        nodes = tocoq.topo(list(atoms))
+        fsyms = sorted(set(n.function_name() for n in nodes if n.is_function_application()), key=lambda x: x.symbol_name())
+        vs = sorted((n for n in nodes if n.is_symbol() and not n.symbol_type().is_function_type()), key=lambda x: x.symbol_name())
+        if len(vs) <= 8 and all(v.symbol_type().is_bool_type() or v.symbol_type().is_int_type() for v in vs):
+            seen = set()
+            for tname, tabs in (_tables(rnd, fsyms) if fsyms else [("none", {})]):
+                for vals in itertools.product(*[_dom(v) for v in vs]):
+                    e = dict(zip(vs, vals))
+                    memo = {}
+                    val = dict((a, euf_eval(a, e, tabs, memo)) for a in atoms)
+                    key = tuple(val[a] for a in atoms)
+                    if key in seen or not all(type(v) is bool for v in val.values()):
+                        continue
+                    seen.add(key)
+                    yield val, _Described({"symbols": {str(k): v for k, v in e.items()}, "function_table": tname})
+            return
     from . import refeval
     got = 0
     for _ in range(samples * 3):
@@ -310,14 +336,83 @@ def atom_valuations(env, rnd, atoms, formulas, max_exhaustive=10, samples=6):
         yield val, it
 
 
-def check_equisat(env, rnd, f, clauses, max_aux=10):
+class _Described(object):
+    def __init__(self, d):
+        self.d = d
+
+    def describe(self):
+        return self.d
+
+
+def _dpll(clauses, assign):
+    """Tiny DPLL over clauses = lists of (variable, polarity).  Returns a model dict or None."""
+    assign = dict(assign)
+    while True:
+        unit = None
+        out = []
+        for c in clauses:
+            sat, rest = False, []
+            for (v, pol) in c:
+                if v in assign:
+                    if assign[v] == pol:
+                        sat = True
+                        break
+                else:
+                    rest.append((v, pol))
+            if sat:
+                continue
+            if not rest:
+                return None
+            if len(rest) == 1 and unit is None:
+                unit = rest[0]
+            out.append(rest)
+        clauses = out
+        if unit is None:
+            break
+        assign[unit[0]] = unit[1]
+    if not clauses:
+        return assign
+    v = clauses[0][0][0]
+    for b in (True, False):
+        a2 = dict(assign)
+        a2[v] = b
+        r = _dpll(clauses, a2)
+        if r is not None:
+            return r
+    return None
+
+
+def aux_model(env, cls, val, aux):
+    """An assignment of the auxiliary symbols satisfying every clause under the valuation `val`
+    of the atoms, or None: the literals over atoms are evaluated, the rest is decided by DPLL."""
+    auxs = set(aux)
+    red = []
+    for c in cls:
+        sat, rest = False, []
+        for l in c:
+            b = l.arg(0) if l.is_not() else l
+            if b in auxs:
+                rest.append((b, not l.is_not()))
+            elif beval(env, l, val, {}):
+                sat = True
+                break
+        if not sat:
+            red.append(rest)
+    m = _dpll(red, {})
+    if m is None:
+        return None
+    return dict((x, m.get(x, False)) for x in aux)
+
+
+def check_equisat(env, rnd, f, clauses, max_aux=10, max_dpll=80, exact_small=False):
     """(a) every (realisable) valuation satisfying f extends over the auxiliary symbols to one
     satisfying every clause; (b) every valuation + auxiliary assignment satisfying every clause
-    satisfies f.  Returns None (fine), ('skip', why) or (kind, witness)."""
+    satisfies f.  Up to max_aux auxiliary symbols by plain enumeration, above by DPLL (both exact).
+    Returns None (fine), ('skip', why) or (kind, witness)."""
     fsyms = set(s for s in tocoq.topo([f]) if s.is_symbol())
     lits = set(l for c in clauses for l in c)
     aux = sorted(set(s for l in lits for s in tocoq.topo([l]) if s.is_symbol() and s not in fsyms), key=lambda s: s.symbol_name())
-    if len(aux) > max_aux:
+    if len(aux) > max_dpll:
         return ("skip", "too many auxiliary symbols")
     for s in aux:
         if not s.symbol_type().is_bool_type():
@@ -326,9 +421,20 @@ def check_equisat(env, rnd, f, clauses, max_aux=10):
     atoms = list(dict.fromkeys(bool_atoms(env, [f]) + out_atoms))
     cls = [list(c) for c in clauses]
     n = 0
-    for val, it in atom_valuations(env, rnd, atoms, [f] + list(lits)):
+    for val, it in atom_valuations(env, rnd, atoms, [f] + list(lits), exact_small=exact_small):
         n += 1
         fv = beval(env, f, val, {})
+        if len(aux) > max_aux:
+            m = aux_model(env, cls, val, aux)
+            if m is not None and not fv:
+                v2 = dict(val)
+                v2.update(m)
+                return ("sound", {"valuation": {str(k): v for k, v in v2.items()},
+                                  "interp": it.describe() if it is not None else None})
+            if m is None and fv:
+                return ("complete", {"valuation": {str(k): v for k, v in val.items()},
+                                     "interp": it.describe() if it is not None else None})
+            continue
         ext = False
         for bits in itertools.product([False, True], repeat=len(aux)):
             v2 = dict(val)
@@ -340,7 +446,8 @@ def check_equisat(env, rnd, f, clauses, max_aux=10):
                                   "interp": it.describe() if it is not None else None})
             if sat:
                 ext = True
-                break_ok = True
+                if fv:
+                    break
         if fv and not ext:
             return ("complete", {"valuation": {str(k): v for k, v in val.items()},
                                  "interp": it.describe() if it is not None else None})
@@ -361,7 +468,7 @@ def emptied_class(conv, f):
     return False
 
 
-def search_cnf(chk, env, rnd, r, stats):
+def search_cnf(chk, env, rnd, r, stats, exact_small=False):
     f, cl = r["f"], r["clauses"]
     if cl is None:
         return
@@ -371,7 +478,7 @@ def search_cnf(chk, env, rnd, r, stats):
         chk.violation({"kind": "input", "what": "%s: result is not a set of clauses of literals: %s" % (kind, bad.serialize()),
                        "formula": f.serialize(), "repro": repro(kind, f)}, key="%s-shape:%s" % (kind, short_key(f)))
         return
-    res = check_equisat(env, rnd, f, cl)
+    res = check_equisat(env, rnd, f, cl, exact_small=exact_small)
     if res is None:
         stats["searched"] += 1
         return
@@ -411,7 +518,7 @@ def cnf_part(chk, rnd, tier):
     nbatches = 10 if tier == "quick" else 80
     per_batch = 40
     cases, meta = [], []
-    stats = {"searched": 0, "skipped": 0, "errors": 0}
+    stats = {"searched": 0, "skipped": 0, "errors": 0, "deep_inputs": 0}
     hstats = {"histories": 0, "calls": 0}
     hcases, hmeta = [], []
     directed_done = False
@@ -433,6 +540,16 @@ def cnf_part(chk, rnd, tier):
                 fs.append(fg.gen(fg.types[0], rnd.randint(1, 4)))
             else:
                 fs.append(pg.gen(rnd.randint(1, 4)))
+        dg = DeepGen(env, rnd)
+        deepf = []
+        if b % 3 == 0 or tier != "quick":
+            for d in range(3, 10):
+                deepf += dg.cnf_inputs(d, all_shapes=(tier != "quick"))
+        if b == 0:
+            deepf += dg.name_clash_inputs()[0]
+        stats["deep_inputs"] += len(deepf)
+        fs += deepf
+        deepf = set(deepf)
         for f in fs:
             for kind in ("cnf", "pol"):
                 r = run_converter(kind, env, f)
@@ -441,7 +558,7 @@ def cnf_part(chk, rnd, tier):
                 cases.append(case_text(env, r))
                 meta.append((kind, f.serialize()[:400]))
                 chk.count((kind, tocoq.skey(f)), nontrivial=len(f.args()) > 0)
-                search_cnf(chk, env, rnd, r, stats)
+                search_cnf(chk, env, rnd, r, stats, exact_small=(f in deepf))
                 r["conv"] = None
         # ---- histories on one converter object (as solvers/pico.py uses its CNFizer) ----
         from pysmt.rewritings import CNFizer, PolarityCNFizer
@@ -576,9 +693,7 @@ class UFGen(object):
 # exact small-domain oracle for the pure equality/UF families (wide functions, histories)
 # ------------------------------------------------------------------------------------------
 def euf_pure(f):
-    op = _ops()
-    okn = (op.SYMBOL, op.INT_CONSTANT, op.BOOL_CONSTANT, op.AND, op.OR, op.NOT, op.IMPLIES, op.IFF, op.EQUALS, op.ITE, op.FUNCTION)
-    return all(n.node_type() in okn for n in tocoq.topo([f]))
+    return _euf_evaluable([f])
 
 
 def euf_eval(n, env, funs, memo):
@@ -605,6 +720,18 @@ def euf_eval(n, env, funs, memo):
         v = euf_eval(n.arg(1), env, funs, memo) if euf_eval(n.arg(0), env, funs, memo) else euf_eval(n.arg(2), env, funs, memo)
     elif t == op.FUNCTION:
         v = funs[n.function_name()](tuple(euf_eval(a, env, funs, memo) for a in n.args()))
+    elif t == op.PLUS:
+        v = sum(euf_eval(a, env, funs, memo) for a in n.args())
+    elif t == op.MINUS:
+        v = euf_eval(n.arg(0), env, funs, memo) - euf_eval(n.arg(1), env, funs, memo)
+    elif t == op.TIMES:
+        v = 1
+        for a in n.args():
+            v *= euf_eval(a, env, funs, memo)
+    elif t == op.LE:
+        v = euf_eval(n.arg(0), env, funs, memo) <= euf_eval(n.arg(1), env, funs, memo)
+    elif t == op.LT:
+        v = euf_eval(n.arg(0), env, funs, memo) < euf_eval(n.arg(1), env, funs, memo)
     else:
         raise ValueError("euf_eval: node %s" % n)
     memo[n] = v
@@ -919,6 +1046,91 @@ def compare_with_fresh(env, f, out, c2t):
     return None
 
 
+# ------------------------------------------------------------------------------------------
+# deep-difference family: terms identical down to depth d that differ at one leaf below
+# (identity by PRINTED form would confuse them: str()/repr() of an FNode is serialize(threshold=5),
+# which prints everything below depth 5 as "...")
+# ------------------------------------------------------------------------------------------
+class DeepGen(object):
+    def __init__(self, env, rnd):
+        from pysmt.typing import INT, BOOL, FunctionType
+        self.m = m = env.formula_manager
+        self.rnd = rnd
+        self.bv = [m.Symbol(n, BOOL) for n in ("a", "b", "c", "d", "e", "g")]
+        self.bl = [m.Symbol(n, BOOL) for n in ("x", "y", "z")]
+        self.iv = [m.Symbol(n, INT) for n in ("i", "j", "k", "l", "m", "n")]
+        self.il = [m.Symbol(n, INT) for n in ("u", "v", "w")]
+        self.pb = m.Symbol("pb", FunctionType(BOOL, [BOOL]))
+        self.pi = m.Symbol("pi", FunctionType(BOOL, [INT]))
+        self.fi = m.Symbol("fi", FunctionType(INT, [INT]))
+        self.fb = m.Symbol("fb", FunctionType(INT, [BOOL]))
+
+    def bchain(self, d, leaf, nv=6):
+        m, t = self.m, leaf
+        for level in range(d, 0, -1):
+            v = self.bv[(level - 1) % nv]
+            t = m.Or(v, t) if level % 2 == 1 else m.And(v, t)
+        return t
+
+    def ichain(self, d, leaf, nv=6):
+        m, t = self.m, leaf
+        for level in range(d, 0, -1):
+            v = self.iv[(level - 1) % nv]
+            t = m.Plus(v, t) if level % 2 == 1 else m.Minus(v, t)
+        return t
+
+    def ack_inputs(self, d, all_shapes):
+        m, r = self.m, self.rnd
+        x, y, z = self.bl
+        u, v, w = self.il
+        tx, ty = self.bchain(d, x), self.bchain(d, y)
+        tu, tv = self.ichain(d, u), self.ichain(d, v)
+        P, Pi, F, Fb = (lambda t: m.Function(self.pb, [t])), (lambda t: m.Function(self.pi, [t])), \
+            (lambda t: m.Function(self.fi, [t])), (lambda t: m.Function(self.fb, [t]))
+        shapes = [m.And(P(tx), m.Not(P(ty)), m.Iff(x, y)), m.Iff(P(tx), P(ty)),
+                  m.And(m.Iff(x, y), m.Not(m.Equals(Fb(tx), Fb(ty)))),
+                  m.And(m.Equals(u, v), m.Not(m.Equals(F(tu), F(tv)))), m.And(Pi(tu), m.Not(Pi(tv)), m.Equals(u, v)),
+                  m.Implies(m.Equals(u, v), m.Equals(F(tu), F(tv)))]
+        # triples over 5 chain variables (8 symbols)
+        t3 = [self.bchain(d, l, nv=5) for l in (x, y, z)]
+        shapes.append(m.And(P(t3[0]), m.Not(P(t3[1])), P(t3[2]), m.Iff(x, y)))
+        i3 = [self.ichain(d, l, nv=5) for l in (u, v, w)]
+        shapes.append(m.And(m.Equals(v, w), m.Equals(F(i3[0]), u), m.Not(m.Equals(F(i3[1]), F(i3[2])))))
+        return shapes if all_shapes else r.sample(shapes, 4)
+
+    def cnf_inputs(self, d, all_shapes):
+        m, r = self.m, self.rnd
+        x, y, z = self.bl
+        u, v, w = self.il
+        tx, ty = self.bchain(d, x), self.bchain(d, y)
+        tu, tv = self.ichain(d, u), self.ichain(d, v)
+        P, Pi = (lambda t: m.Function(self.pb, [t])), (lambda t: m.Function(self.pi, [t]))
+        i0 = self.iv[0]
+        shapes = [m.And(tx, m.Not(ty)), m.Iff(tx, ty), m.And(tx, m.Not(ty), m.Iff(x, y)), m.Or(m.Not(tx), ty),   # (iii) conjuncts
+                  m.And(P(tx), m.Not(P(ty))), m.And(P(tx), m.Not(P(ty)), m.Iff(x, y)),                        # (ii) atoms
+                  m.And(m.LE(tu, i0), m.Not(m.LE(tv, i0))), m.And(Pi(tu), m.Not(Pi(tv)), m.Equals(u, v)),
+                  m.Or(m.Equals(tu, tv), m.Not(m.Equals(u, v)))]
+        t3 = [self.bchain(d, l, nv=5) for l in (x, y, z)]
+        shapes.append(m.And(t3[0], m.Not(t3[1]), m.Or(t3[2], m.Not(x))))
+        return shapes if all_shapes else r.sample(shapes, 4)
+
+    def name_clash_inputs(self):
+        """Symbols whose NAME is another term's printed form, next to that term."""
+        m = self.m
+        a, b = self.bv[0], self.bv[1]
+        x, y = self.bl[0], self.bl[1]
+        t1 = m.And(a, b)
+        s1 = m.Symbol(t1.serialize())                       # the symbol named "(a & b)"
+        deep = self.bchain(7, x)
+        s2 = m.Symbol(str(deep))                            # named like the truncated print of deep
+        s3 = m.Symbol("(! a)")
+        P = lambda t: m.Function(self.pb, [t])
+        cnf = [m.And(s1, m.Not(t1)), m.Iff(s1, t1), m.And(s2, m.Not(deep)), m.Or(s3, m.Not(m.Not(a))), m.And(P(s1), m.Not(P(t1)))]
+        ack = [m.And(P(s1), m.Not(P(t1))), m.And(P(s2), m.Not(P(deep)), m.Iff(x, y)), m.Iff(P(s3), P(m.Not(a))),
+               m.And(P(s1), m.Not(P(t1)), m.Iff(s1, t1))]
+        return cnf, ack
+
+
 ACK_T = "term * nat * list string * term * nat"
 ACK_OK = """
 Definition ok (c : ACK_T) : bool :=
@@ -1024,7 +1236,7 @@ def ack_part(chk, rnd, tier):
     from pysmt.rewritings import Ackermannizer
     nbatches = 6 if tier == "quick" else 50
     cases, meta = [], []
-    stats = {"complete_checked": 0, "sound_checked": 0, "skipped": 0, "nested_inputs": 0, "wide_inputs": 0, "exact_checked": 0,
+    stats = {"complete_checked": 0, "sound_checked": 0, "skipped": 0, "nested_inputs": 0, "wide_inputs": 0, "deep_inputs": 0, "exact_checked": 0,
              "histories": 0, "history_calls": 0, "history_calls_reusing_all": 0, "history_calls_reusing_some": 0,
              "history_calls_reusing_none": 0, "history_vs_new_object_differs": 0}
     hcases, hmeta, esc = [], [], []
@@ -1054,6 +1266,15 @@ def ack_part(chk, rnd, tier):
             wide += [m.And(m.Equals(a_, b_), m.Equals(c_, d_), m.Not(m.Equals(a_, c_)), m.Not(m.Equals(t1, t2))), m.Not(m.Equals(t1, t2)),
                      m.Not(m.Equals(m.Function(wg.f3, [a_, b_, c_]), m.Function(wg.f3, [b_, a_, c_])))]
         stats["wide_inputs"] += len(wide)
+        dg = DeepGen(env, rnd)
+        deepf = []
+        if b % 2 == 0 or tier != "quick":
+            for d in range(3, 10):
+                deepf += dg.ack_inputs(d, all_shapes=(tier != "quick"))
+        if b == 0:
+            deepf += dg.name_clash_inputs()[1]
+        stats["deep_inputs"] += len(deepf)
+        wide += deepf
         fs += wide
         wide = set(wide)
         for f in fs:
